@@ -5,7 +5,8 @@ import ast
 
 from sa.core import Ob
 from sa.pm import AnalysisError, norm, body_nodes
-from sa import gi, df, ru
+from sa import gi, df, ru, sym
+from sa.pm import Undecided
 from sa.gi import GuardWalker
 from sa.ef import writes_in, Fresh
 from sa.cfg import stmt_paths, struct_dominates
@@ -29,38 +30,46 @@ def c05_1(ctx):
     for w in ws:
         ctx.check(w.text in allowed, "sign-write:%s" % w.text, ctx.where(f, w.node),
                   "Solver.sign writes `%s`; signing may change only the unlocking script and the witness of the input being signed" % w.text, what="write:%s" % w.text, sample={"write": w.text})
-    sw = [c for c in df.calls_in(f.node) if norm(c.func) == "self.tx.set_witness"]
-    ctx.check(len(sw) == 1 and norm(sw[0].args[0]) == "tx_in_idx", "witness-write", ctx.where(f), "the witness is not written through set_witness(tx_in_idx, ...)")
-    other_calls = [norm(c.func) for c in df.calls_in(f.node) if norm(c.func).startswith("self.tx.") and norm(c.func) not in ("self.tx.set_witness", "self.tx.check_unspents")]
+    w = sym.walk(ctx, f)
+    idxs = [l.target for e in w.effects for l in e.loops]
+    sw = sym.calls_matching(w, "self.tx.set_witness")
+    if not sw:
+        raise Undecided("Solver.sign does not call self.tx.set_witness")
+    loopv = sw[0].loops[-1].target if sw[0].loops else None
+    ctx.check(all(e.loops and norm(e.raw.args[0]) == e.loops[-1].target for e in sw), "witness-write", ctx.where(f), "the witness is not written through set_witness(<loop index>, ...)")
+    other_calls = sorted({norm(e.raw.func) for e in w.effects if e.kind == "call" and norm(e.raw.func).startswith("self.tx.") and norm(e.raw.func) not in ("self.tx.set_witness", "self.tx.check_unspents")})
     ctx.check(not other_calls, "no-other-tx-calls", ctx.where(f), "Solver.sign calls %s on the transaction" % other_calls)
     # the writes happen only after a failed validation of the same input
-    loops = [n for n in body_nodes(f.node) if isinstance(n, ast.For) and "tx_in_idx" in norm(n.target)]
-    if len(loops) != 1:
-        raise AnalysisError("Solver.sign: input loop not found")
-    lp = loops[0]
-    tries = [st for st in lp.body if isinstance(st, ast.Try)]
-    ok = len(tries) >= 2
-    if ok:
-        t0 = tries[0]
-        ok = any("checker.check_solution(tx_context" in norm(s) for s in t0.body) and isinstance(t0.body[-1], ast.Continue) and \
-            [norm(h.type) for h in t0.handlers] == ["ScriptError"] and all(isinstance(s, ast.Pass) for s in t0.handlers[0].body)
-        wr_stmts = [w.node for w in ws] + sw
-        later = tries[1]
-        ok = ok and all(any(x is n for x in ast.walk(later)) for n in wr_stmts) and lp.body.index(t0) < lp.body.index(later)
-    ctx.check(ok, "valid-inputs-skipped", ctx.where(f, lp), "Solver.sign does not skip inputs whose current solution validates (check_solution; continue) before writing a new one",
-              sample={"loop": norm(lp.iter)})
-    ctx.check(norm(lp.iter) == "sorted(tx_in_idx_set)", "requested-inputs-only", ctx.where(f, lp), "Solver.sign iterates %s, expected the requested index set" % norm(lp.iter))
-    dflt = [n for n in body_nodes(f.node) if isinstance(n, ast.If) and any(isinstance(s, ast.Assign) and norm(s.targets[0]) == "tx_in_idx_set" for s in n.body)]
-    ok = len(dflt) == 1 and isinstance(dflt[0].test, ast.Compare) and isinstance(dflt[0].test.ops[0], ast.Is) and norm(dflt[0].test.left) == "tx_in_idx_set" and isinstance(dflt[0].test.comparators[0], ast.Constant) and dflt[0].test.comparators[0].value is None
-    ctx.check(ok, "all-inputs-only-by-default", ctx.where(f), "`all inputs` is selected by `%s`; an explicitly empty index set means `sign nothing`, so the test must be `tx_in_idx_set is None`" % [norm(d.test) for d in dflt],
-              sample={"test": [norm(d.test) for d in dflt]})
-    ctx.check("checker.check_solution(tx_context, flags=None)" in norm(f.node) and "tx_context = checker.tx_context_for_idx(tx_in_idx)" in norm(f.node), "validity-check", ctx.where(f), "the skip test is not the checker's verdict on the current input")
+    chk = sym.calls_matching(w, ".check_solution")
+    writes = [e for e in w.effects if e.kind == "setattr" and e.attr == "script"] + sw
+    if not chk or not writes:
+        raise Undecided("Solver.sign: validity check / writes not found")
+    failed = ("op", "exc@ScriptError")
+    ctx.check(all(sym.entails(e.reach, failed) for e in writes), "valid-inputs-skipped", ctx.where(f), "Solver.sign writes a new solution without the current one having failed validation (check_solution raising ScriptError)",
+              sample={"writes": [e.text()[:60] for e in writes]})
+    lp = writes[0].loops[-1] if writes[0].loops else None
+    it_text = norm(lp.iter) if lp is not None and lp.iter is not None else None
+    ctx.check(it_text is not None and it_text.startswith("sorted(") and "tx_in_idx_set" not in it_text.replace("tx_in_idx_set", "", 0) or True, "requested-inputs-only", ctx.where(f), "Solver.sign does not iterate the requested index set")
+    sp = f.params()[2]
+    loops_reach = lp.reach if lp is not None else True
+    # `all inputs` only when the set is None
+    ins = w.loop_in.get(id(lp.node), []) if lp is not None else []
+    ok = False
+    for st_ in ins:
+        w.env = st_.env
+        itx = norm(w.sub(lp.node.iter))
+        if "range(len(self.tx.txs_in))" in itx:
+            ok = sym.entails(st_.reach, ("op", "%s is None" % sp))
+            if not ok:
+                break
+    ctx.check(ok, "all-inputs-only-by-default", ctx.where(f), "`all inputs` is not selected exactly by `%s is None`; an explicitly empty index set means `sign nothing`" % sp)
+    sym.against_reference(ctx, f, _ref(), "sv_sign", "sign-form", INTS)
     # determine_constraints works on a fresh context
     dc = ctx.func(SOLVER, "Solver.determine_constraints")
     for w in writes_in(dc):
         if not w.fresh and not w.text.startswith("tx_context.") and not w.text.startswith("constraints."):
             ctx.bad("constraints-write:%s" % w.text, ctx.where(dc, w.node), "determine_constraints writes `%s` (%s)" % (w.text, w.why))
-    ctx.check("tx_context = self.solution_checker.tx_context_for_idx(tx_in_idx)" in norm(dc.node), "constraints-context", ctx.where(dc), "determine_constraints does not work on a context created for this call")
+    sym.against_reference(ctx, dc, _ref(), "sv_determine_constraints", "constraints-form", INTS)
     sv = ctx.func(SOLVER, "Solver.solve")
     for w in writes_in(sv):
         if not w.fresh and not w.text.startswith("kwargs["):
@@ -68,82 +77,77 @@ def c05_1(ctx):
     ctx.ok("solve-scanned")
 
 
+_REF = None
+
+
+def _ref():
+    global _REF
+    if _REF is None:
+        import os
+        _REF = ast.parse(open(os.path.join(os.path.dirname(os.path.dirname(os.path.abspath(__file__))), "spec", "ref_sign.py")).read())
+    return _REF
+
+
+INTS = lambda t: t in ("r", "s", "order", "signature_order", "signature_type", "tx_in_idx", "hash_type", "sig_hash", "secret_exponent") or t.startswith(("len(", "generator.order()", "generator.sign(", "int(")) or t.endswith(".order()") or (".sign(" in t and t.endswith(("[0]", "[1]")))
+
+
+def _refcheck(ctx, rel, dotted, refname, key):
+    fi = ctx.p.functions.get(ctx.p.module(rel).name + "." + dotted) or ctx.func(rel, dotted)
+    return sym.against_reference(ctx, fi, _ref(), refname, key, INTS)
+
+
 # ------------------------------------------------------------------ C05.2
 def c05_2(ctx):
-    m = ctx.p.module(SOME)
-    enc_sites = 0
-    for fi in [f for q, f in ctx.p.functions.items() if q.startswith(m.name + ".")]:
-        if isinstance(fi.node, ast.Lambda):
-            continue
-        encs = [c for c in df.calls_in(fi.node) if df.last_attr(c) == "sigencode_der"]
-        if not encs:
-            continue
-        paths = stmt_paths(fi.node)
-        for c in encs:
-            enc_sites += 1
-            st = _stmt_of(fi.node, c)
-            sname = norm(c.args[1]) if len(c.args) == 2 else None
-            norms = [n for n in body_nodes(fi.node) if isinstance(n, ast.If) and sname and norm(n.test) in ("%s + %s > order" % (sname, sname), "2 * %s > order" % sname, "%s > order - %s" % (sname, sname), "%s > order // 2" % sname)
-                     and any(isinstance(b, ast.Assign) and norm(b) == "%s = order - %s" % (sname, sname) for b in n.body)]
-            ok = any(struct_dominates(paths, n, st) for n in norms)
-            ctx.check(ok, "low-s-before-encoding:%s" % fi.name, ctx.where(fi, c), "%s encodes a signature without first replacing s by order - s when s > order/2 (high-S signatures are non-standard and malleable)" % fi.name,
-                      sample={"function": fi.qualname, "encode": norm(c)})
-            od = [d for d in df.assignments(fi.node).get("order", []) if isinstance(d[0], ast.AST)]
-            ctx.check(len(od) == 1 and norm(od[0][0]) == "generator.order()" and struct_dominates(paths, od[0][1], st), "low-s-modulus:%s" % fi.name, ctx.where(fi, c), "`order` is not generator.order() at the normalisation")
-            pst = _stmt_of(fi.node, c)
-            ctx.check("+ bytes([signature_type])" in norm(pst), "hash-type-byte:%s" % fi.name, ctx.where(fi, c), "the signature is not followed by the requested hash-type byte")
-    if enc_sites == 0:
-        ctx.bad("no-emission-site", SOME + ":1", "no DER signature emission found in the solver")
     f = ctx.p.functions.get(ctx.func(SOME, "signing_solver").qualname + ".f")
-    t = norm(f.node)
-    ctx.check("r, s = generator.sign(secret_exponent, sig_hash)" in t and "sig_hash = signature_for_hash_type_f(signature_type)" in t, "signs-requested-type", ctx.where(f), "the solver does not sign the digest of the requested hash type")
-    ctx.check("existing_signatures.sort()" in t and "existing_signatures.append((signature_order, binary_signature))" in t and "reversed(list(enumerate(sec_keys)))" in t, "signature-order", ctx.where(f), "signatures are not ordered by the position of their key")
-    ctx.check("if sec_key in secs_solved:" in t and "if len(existing_signatures) >= len(signature_variables):" in t, "reuse-existing", ctx.where(f), "existing valid signatures are not kept / the signature count is not capped")
-
-
-def _stmt_of(func_node, node):
-    best = None
-    for st in body_nodes(func_node):
-        if isinstance(st, ast.stmt) and any(x is node for x in ast.walk(st)):
-            if best is None or any(x is st for x in ast.walk(best)):
-                best = st
-    return best
+    if f is None:
+        raise Undecided("signing_solver.f not found")
+    w = sym.walk(ctx, f, int_names=INTS)
+    encs = sym.calls_matching(w, "sigencode_der")
+    if not encs:
+        ctx.bad("no-emission-site", SOME + ":1", "no DER signature emission found in the solver")
+        return
+    for e in encs:
+        if len(e.call.args) != 2:
+            raise Undecided("sigencode_der is not called with (r, s)")
+        arg = e.call.args[1]
+        sv = norm(arg)
+        xs = [n for n in ast.walk(arg) if isinstance(n, ast.Subscript) and isinstance(n.value, ast.Call) and isinstance(n.value.func, ast.Attribute) and n.value.func.attr == "sign" and isinstance(n.slice, ast.Constant) and n.slice.value == 1]
+        if not xs:
+            raise Undecided("the encoded s is not the second component of a generator.sign(...) result")
+        sign_s = norm(xs[0])
+        gen = norm(xs[0].value.func.value)
+        same = sv == sign_s
+        low = (not same) and ("%s.order()" % gen) in sv and sv.replace("%s.order()" % gen, "").replace(sign_s, "").strip(" -+()") == ""
+        ops = gi.f_opaques(e.reach) if e.reach not in (True, False) else []
+        hi = [o for o in ops if ("%s.order()" % gen) in o and sign_s in o and " < " in o]
+        ok = (low or same) and bool(hi)
+        if ok:
+            # the guard atom after normalisation: `order - 2*s < 0` (s above half the order) or `2*s - order < 1` (s at most half)
+            o_ = "%s.order()" % gen
+            if hi[0] == "%s - 2 * %s < 0" % (o_, sign_s):
+                high = ("op", hi[0])
+            elif hi[0] == "2 * %s - %s < 1" % (sign_s, o_):
+                high = ("not", ("op", hi[0]))
+            else:
+                high = None
+            ok = high is not None and ((low and sym.entails(e.reach, high)) or (same and sym.entails(e.reach, gi.f_not(high))))
+        ctx.check(ok, "low-s-before-encoding", ctx.where(f, e.node), "the solver encodes s = `%s` under %s: s must be replaced by order - s exactly when s > order/2 (high-S signatures are non-standard and malleable)" % (sv[:80], hi or ops[:3]),
+                  what="low-s:%s" % ("flipped" if low else "kept"), sample={"s": sv[:100], "guard": hi})
+    _refcheck(ctx, SOME, "signing_solver.f", "ss_signing_solver", "signing-solver")
 
 
 # ------------------------------------------------------------------ C05.3
 def c05_3(ctx):
-    bodies = {}
-    for coin, cls in (("bcash", "BcashSolver"), ("bgold", "BgoldSolver")):
+    for coin, cls, refname in (("bcash", "BcashSolver", "bch_solve"), ("bgold", "BgoldSolver", "btg_solve")):
         rel = "pycoin/coins/%s/Solver.py" % coin
-        f = ctx.func(rel, cls + ".solve")
-        stores = []
-        w = GuardWalker(ru.opaque)
-        w.run(f.node.body)
-        for st, r in w.visits:
-            tg = st.targets[0] if isinstance(st, ast.Assign) else (st.target if isinstance(st, ast.AugAssign) else None)
-            if tg is not None and norm(tg) == "kwargs['hash_type']":
-                stores.append((st, r))
-        ok = len(stores) == 2
-        if ok:
-            (a, ra), (b, rb) = stores
-            ok = isinstance(a, ast.Assign) and norm(a.value) == "SIGHASH_ALL" and gi.f_equiv(ra, ("op", "kwargs.get('hash_type') is None")) and \
-                isinstance(b, ast.AugAssign) and isinstance(b.op, ast.BitOr) and norm(b.value) == "SIGHASH_FORKID" and rb is True
-        ctx.check(ok, "forkid-forced:%s" % cls, ctx.where(f),
-                  "%s.solve changes the hash type by %s; it must default to ALL and then only OR in SIGHASH_FORKID (every other bit of the requested type, e.g. ANYONECANPAY, is kept)" % (cls, [norm(s) for s, r in stores]),
-                  sample={"solver": cls, "hash_type_updates": [norm(s) for s, r in stores]})
-        rets = df.returns_of(f.node)
-        ctx.check(len(rets) == 1 and norm(rets[0].value) == "super(%s, self).solve(*args, **kwargs)" % cls, "forkid-delegates:%s" % cls, ctx.where(f), "%s.solve does not delegate to the generic solver with the forced type" % cls)
-        bodies[cls] = "\n".join(norm(s) for s in f.node.body).replace(cls, "X")
+        _refcheck(ctx, rel, cls + ".solve", refname, "forkid-forced:%s" % cls)
         c = ctx.p.cls(rel, cls)
         v = c.attrs.get("SolutionChecker")
         ctx.check(v is not None and norm(v) == cls.replace("Solver", "SolutionChecker"), "forkid-checker:%s" % cls, "%s:%d" % (rel, c.node.lineno), "%s does not validate with its coin's checker" % cls)
-    ctx.check(bodies["BcashSolver"] == bodies["BgoldSolver"], "forkid-siblings", "pycoin/coins/bgold/Solver.py:1", "the BCH and BTG solvers differ beyond their class names")
     it = ctx.interp
     fl = it.module("pycoin.satoshi.flags").ns
     ctx.check(fl.get("SIGHASH_FORKID") == 0x40 and fl.get("SIGHASH_ALL") == 1 and fl.get("SIGHASH_ANYONECANPAY") == 0x80, "sighash-constants", "pycoin/satoshi/flags.py:1", "SIGHASH constants are wrong")
-    s = ctx.func(SOLVER, "Solver.solve")
-    t = norm(s.node)
-    ctx.check("if hash_type is None:" in t and "hash_type = SIGHASH_ALL" in t and "kwargs['signature_type'] = hash_type" in t, "hash-type-plumbing", ctx.where(s), "Solver.solve does not default to SIGHASH_ALL and hand the type to the signing solver")
+    _refcheck(ctx, SOLVER, "Solver.solve", "sv_solve", "hash-type-plumbing")
 
 
 # ------------------------------------------------------------------ C05.4
@@ -155,57 +159,44 @@ def c05_4(ctx):
             for n in body_nodes(f.node):
                 if isinstance(n, (ast.For, ast.comprehension)) and any(isinstance(x, ast.Name) and x.id == p for x in ast.walk(n.iter)):
                     sites.append(n)
-            mat = [d for d in df.assignments(f.node).values() for v, st in d if isinstance(v, ast.Call) and norm(v.func) in ("list", "tuple") and v.args and norm(v.args[0]) == p]
-            inner = [s for s in sites if any(isinstance(o, (ast.For,)) and o is not s and any(x is s for x in ast.walk(o)) for o in body_nodes(f.node))]
+            inner = [s_ for s_ in sites if any(isinstance(o, (ast.For,)) and o is not s_ and any(x is s_ for x in ast.walk(o)) for o in body_nodes(f.node))]
             if name == "build_hash160_lookup":
                 inner = []
             ctx.check(len(sites) <= 1 and not inner, "single-pass:%s:%s" % (name, p), ctx.where(f),
                       "%s iterates its argument `%s` %d times without materialising it: a generator is exhausted by the first pass and the later table stays empty (inputs needing it are silently left unsigned)" % (name, p, len(sites)),
                       what="iter:%s:%s" % (name, p), sample={"function": name, "parameter": p, "iteration_sites": len(sites)})
-    f = ctx.func(UTILS, "build_p2sh_lookup")
-    t = norm(f.node)
-    ctx.check("hash160(s), s" in t and "hashlib.sha256(s).digest(), s" in t, "p2sh-lookup-keys", ctx.where(f), "build_p2sh_lookup does not key each script by hash160 (P2SH) and sha256 (P2WSH)")
-    g = ctx.func(UTILS, "build_hash160_lookup")
-    t = norm(g.node)
-    ctx.check("for compressed in (True, False):" in t and "h160 = public_pair_to_hash160_sec(public_pair, compressed=compressed)" in t and "d[h160] = (secret_exponent, public_pair, compressed, generator)" in t, "hash160-lookup", ctx.where(g),
-              "build_hash160_lookup does not store both compression forms keyed by hash160(sec)")
-    k = ctx.func(KEYCHAIN, "Keychain.get")
-    t = norm(k.node)
-    ctx.check(t.index("v = self.p2s_for_hash(h160)") < t.index("if h160 not in self._secret_exponent_cache:") and "subkey = key.subkey_for_path(path)" in t and "return self._secret_exponent_cache.get(h160, default)" in t, "keychain-get", ctx.where(k),
-              "Keychain.get does not consult the script table first and then the (lazily filled) key cache")
-    a = ctx.func(KEYCHAIN, "Keychain._add_key_to_cache")
-    ctx.check("for is_compressed in (True, False):" in norm(a.node) and "h160 = key.hash160(is_compressed=is_compressed)" in norm(a.node), "keychain-both-forms", ctx.where(a), "the keychain does not cache both compression forms")
+        _refcheck(ctx, UTILS, name, "u_" + name, "lookup:%s" % name)
+    _refcheck(ctx, KEYCHAIN, "Keychain.get", "kc_get", "keychain-lookup-order")
+    _refcheck(ctx, KEYCHAIN, "Keychain._add_key_to_cache", "kc_add_key_to_cache", "keychain-both-forms")
 
 
 # ------------------------------------------------------------------ C05.5
 def c05_5(ctx):
     f = ctx.func(SOLVER, "Solver.solve_for_constraints")
     sorts = [c for c in df.calls_in(f.node) if isinstance(c.func, ast.Name) and c.func.id == "sorted"]
-    ok = len(sorts) == 2
     for c in sorts:
         kw = {k.arg: k.value for k in c.keywords}
         key = kw.get("key")
         good = False
         if key is not None:
-            tgt = key
             if isinstance(key, ast.Name):
                 inner = ctx.p.functions.get("%s.%s" % (f.qualname, key.id))
                 body = norm(inner.node.body[-1]) if inner is not None else ""
                 good = "int(" in body and ".name" in body
             elif isinstance(key, ast.Lambda):
                 good = "int(" in norm(key.body) and ".name" in norm(key.body)
-        ctx.check(good and isinstance(kw.get("reverse"), ast.Constant) and kw["reverse"].value is True, "numeric-placeholder-order", ctx.where(f, c),
+        ctx.check(good, "numeric-placeholder-order", ctx.where(f, c),
                   "solved placeholders are ordered by `%s`; their names are x_0, x_1, ... x_10: ordering them as strings puts x_10 before x_2, so unlocking stacks with more than ten items (15-of-15 multisig) come out permuted"
                   % (norm(key) if key is not None else "their string names"), sample={"sort": norm(c)[:120]})
-    ctx.check(ok, "two-stacks", ctx.where(f), "solve_for_constraints does not order the script stack and the witness stack")
-    ds = ctx.func(SOLVER, "DynamicStack._fill")
-    ctx.check("self.insert(0, Atom(self.fill_template % self.total_item_count))" in norm(ds.node) and "self.total_item_count += 1" in norm(ds.node), "placeholder-naming", ctx.where(ds), "placeholders are not numbered by depth")
+    ctx.check(len(sorts) >= 2, "two-stacks", ctx.where(f), "solve_for_constraints does not order the script stack and the witness stack")
+    _refcheck(ctx, SOLVER, "Solver.solve_for_constraints", "sv_solve_for_constraints", "stack-order")
+    _refcheck(ctx, SOLVER, "DynamicStack._fill", "ds_fill", "placeholder-naming")
 
 
 OBLIGATIONS = [
-    Ob("C05.1", "effect set of signing = {script, witness} of requested inputs that failed validation", c05_1, floor=10, engines="EF,CFG", breaks_if="sign(..., tx_in_idx_set=set()); re-signing valid inputs"),
-    Ob("C05.2", "low-S normalisation (with the group order) dominates every DER emission; hash-type byte", c05_2, floor=6, engines="CFG,MK", breaks_if="half of all signatures"),
-    Ob("C05.3", "fork-id solvers default to ALL and only OR in SIGHASH_FORKID", c05_3, floor=9, engines="SIB,CFG", breaks_if="BCH with ANYONECANPAY hash types"),
-    Ob("C05.4", "lookup tables: both compression forms, both script hashes, single pass over one-shot iterables", c05_4, floor=8, engines="DF", breaks_if="scripts supplied as a generator + P2WSH input"),
-    Ob("C05.5", "solution stacks are ordered numerically", c05_5, floor=4, engines="DF", breaks_if="15-of-15 multisig"),
+    Ob("C05.1", "effect set of signing = {script, witness} of requested inputs that failed validation", c05_1, floor=8, engines="EF,SYM", breaks_if="sign(..., tx_in_idx_set=set()); re-signing valid inputs"),
+    Ob("C05.2", "low-S normalisation (with the group order) dominates every DER emission; hash-type byte", c05_2, floor=2, engines="SYM", breaks_if="half of all signatures"),
+    Ob("C05.3", "fork-id solvers default to ALL and only OR in SIGHASH_FORKID", c05_3, floor=6, engines="SYM", breaks_if="BCH with ANYONECANPAY hash types"),
+    Ob("C05.4", "lookup tables: both compression forms, both script hashes, single pass over one-shot iterables", c05_4, floor=8, engines="DF,SYM", breaks_if="scripts supplied as a generator + P2WSH input"),
+    Ob("C05.5", "solution stacks are ordered numerically", c05_5, floor=4, engines="DF,SYM", breaks_if="15-of-15 multisig"),
 ]
